@@ -729,7 +729,8 @@ def _merge(run, P):
                and s_ is not assign
                and not (isinstance(s_.value, ast.Name))
                and not (isinstance(s_.value, ast.Call) and isinstance(s_.value.func, ast.Attribute)
-                        and s_.value.func.attr in ("popleft", "pop"))]
+                        and s_.value.func.attr in ("popleft", "pop"))
+               and not (isinstance(s_.value, ast.Call) and dotted(s_.value.func) == "next")]
     if others_:
         # another node built from two neighbours (two loops over one range fused, say):
         # legal exactly when the bodies do not depend on each other, which a predicate of
@@ -792,9 +793,19 @@ def _handlers(run, P):
             top = name == "__call__"
             if not top and not (name.startswith("map_") and name[4:] in with_children):
                 continue
+            if top and any(isinstance(x, (ast.While, ast.For)) for x in ast.walk(f.node)):
+                # the pass walks the tree by itself (an explicit stack instead of the
+                # mapper's recursion): the handler analysis speaks about one node at a time
+                raise AnalysisError(f"{cname}.__call__ re-implements the traversal; not read by "
+                                    f"the handler analysis")
             if cname == "ASTSimplifyMapper" and (top or any(
                     x.lstrip("*") in listy for x in slots_of.get(name[4:], []))):
                 continue      # the merge pass's map_Block is decided by C06.keep / lost / merge
+            if any(isinstance(x, ast.Name) and x.id in ("LogicalAnd", "LogicalOr") for x in ast.walk(f.node)):
+                # the handler looks inside the condition (a conjunction tested one operand at a
+                # time): the analysis knows conditions as a flag under negations or a constant
+                raise AnalysisError(f"{cname}.{name} takes conditions apart (LogicalAnd / LogicalOr); "
+                                    f"not read by the handler analysis")
             found, n_ret, n_w, kinds = c06_post.analyse(P, f, name[4:] if not top else None, single, listy,
                                                  slots_of, top=top, want_nullfree=last)
             rule = "C06.post" if last else "C06.handlers"
@@ -914,7 +925,10 @@ def _flat(run, P):
             rets = [s_ for s_ in fb.node.body if isinstance(s_, ast.Return)]
             ok = ok and len(rets) == 1 and has("Block(*V_r)", rets[0], env)
     else:
-        ok = False
+        # the flattening is written in another way (a generator that splices, a helper):
+        # in which order it yields is not read by this clause
+        raise AnalysisError("flat_Block: not the loop over its arguments that extends / appends; "
+                            "not recognised")
     run.ob("C06.flat", fb, fb.node, ok,
            construct="flat_Block(*nodes): in-order extend/append, Block(*result)",
            why="merged arms must run the earlier statements first")
